@@ -141,29 +141,20 @@ Definition emit (w : wstate) (n : node) : ret :=
 Definition write (w : wstate) (b : list N) : ret := emit w (atom b).
 
 (* ---- symbols ----------------------------------------------------------------------- *)
-(* strconv.Atoi on the text after '$' *)
+(* strconv.ParseInt(_, 10, 64) on the decimal digits after '$' *)
 Definition is_digit (c : N) : bool := (48 <=? c) && (c <=? 57).
-Definition atoi (t : text) : option Z :=
-  let '(neg, ds) := match t with
-                    | 45 :: r => (true, r)
-                    | 43 :: r => (false, r)
-                    | _ => (false, t)
-                    end in
+Definition parse_int64_digits (ds : text) : option Z :=
   match ds with
   | [] => None
-  | _ => if forallb is_digit ds
-         then match parse_digits ds 0 with
-              | Some n => let z := if neg then (- Z.of_N n)%Z else Z.of_N n in
-                          if ((-9223372036854775808 <=? z) && (z <=? 9223372036854775807))%Z
-                          then Some z else None
-              | None => None
-              end
-         else None
+  | _ => match parse_digits ds 0 with
+         | Some n => if (Z.of_N n <=? 9223372036854775807)%Z then Some (Z.of_N n) else None
+         | None => None
+         end
   end.
-(* symbolIdentifier *)
+(* symbolIdentifier: '$', then one or more decimal digits and nothing else (no sign) *)
 Definition symbol_identifier (t : text) : option Z :=
   match t with
-  | 36 :: (_ :: _) as r => atoi r
+  | 36 :: (_ :: _) as r => if forallb is_digit r then parse_int64_digits r else None
   | _ => None
   end.
 
